@@ -504,6 +504,10 @@ func (s *sessModel) judge1(req rc.Message) verdict {
 		if f == nil {
 			return rej(EBADF)
 		}
+		if m.Count > 4<<20 || s.msize == 0 {
+			// beyond any msize, or before negotiation (no read buffer yet): any error
+			return verdict{unjudged: true}
+		}
 		switch f.x {
 		case xRead:
 			if m.Count == 0 {
@@ -520,6 +524,11 @@ func (s *sessModel) judge1(req rc.Message) verdict {
 		case xWrite:
 			return rej(EINVAL)
 		}
+		if s.msize == 0 || m.Count > s.msize-24 {
+			// before negotiation there is no read buffer; over-long counts are
+			// C13's business: any answer
+			return verdict{unjudged: true}
+		}
 		if !f.opened {
 			return rej(EINVAL)
 		}
@@ -528,9 +537,6 @@ func (s *sessModel) judge1(req rc.Message) verdict {
 		}
 		if f.mode == 3 {
 			return verdict{unjudged: true}
-		}
-		if s.msize > 0 && m.Count > s.msize-24 {
-			return verdict{unjudged: true} // C13's business
 		}
 		return verdict{forward: true}
 	case *rc.Twrite:
